@@ -11,6 +11,7 @@ pub mod c03;
 pub mod c04;
 pub mod c05;
 pub mod c16;
+pub mod c18;
 pub mod c06;
 pub mod c07;
 pub mod snipbatch;
@@ -29,6 +30,7 @@ pub fn worker(prop: &str, case: &Value) -> Value {
         "C04" => c04::worker(case),
         "C05" => c05::worker(case),
         "C16" => c16::worker(case),
+        "C18" => c18::worker(case),
         "C06" => c06::worker(case),
         "C07" => c07::worker(case),
         "C08" => c08::worker(case),
@@ -49,6 +51,7 @@ pub fn drive(prop: &str, tier: &str) -> i32 {
         "C04" => c04::drive(tier),
         "C05" => c05::drive(tier),
         "C16" => c16::drive(tier),
+        "C18" => c18::drive(tier),
         "C06" => c06::drive(tier),
         "C07" => c07::drive(tier),
         "C08" => c08::drive(tier),
